@@ -70,6 +70,15 @@ Theorem C03_response_fidelity : forall base hfs hinst chunks,
     end.
 Proof. exact response_fidelity. Qed.
 
+(** a DateTime header (Expires, Last-Modified, ...) is written as the RFC 7231 date of the INSTANT the value
+    denotes (Model.imf_fixdate: the value is taken to UTC first, whatever offset it carried); for every instant
+    of the years 1900-2199 the calendar date and time of day written denote exactly that instant *)
+Theorem C03_header_date_instant : forall e, -2208988800 <= e < 7258118400 ->
+  instant_of_fields (imf_fields e) = e /\
+  let '(y, m, d, hh, mi, ss) := imf_fields e in
+  1 <= y <= 9999 /\ 1 <= m <= 12 /\ 1 <= d <= 31 /\ 0 <= hh < 24 /\ 0 <= mi < 60 /\ 0 <= ss < 60.
+Proof. exact header_date_instant. Qed.
+
 (** the defect of the pinned tree (plain string sort of the keys; repaired by the proposed fix):
     the documented indexed notation with more than ten elements is scrambled ... *)
 Theorem C03_request_fidelity_pinned_refuted :
@@ -182,3 +191,10 @@ Example C03_ex_response :
                 [([88], VStr [55]); ([83], VList [[97]; [98]])] [[111]; [107]]
   = ([([67], [116]); ([88], [55]); ([83], [97]); ([83], [98]); (CONTENT_LENGTH, [50])], [111; 107]).
 Proof. vm_compute. reflexivity. Qed.
+
+(** RFC 7231's own example: 784111777 s after the epoch is "Sun, 06 Nov 1994 08:49:37 GMT" *)
+Example C03_ex_header_date :
+  imf_fixdate 784111777 = [83; 117; 110; 44; 32; 48; 54; 32; 78; 111; 118; 32; 49; 57; 57; 52; 32;
+                           48; 56; 58; 52; 57; 58; 51; 55; 32; 71; 77; 84] /\
+  imf_fields 784111777 = (1994, 11, 6, 8, 49, 37).
+Proof. split; vm_compute; reflexivity. Qed.
